@@ -202,6 +202,18 @@ def gen_real_model(rng, dim):
         kw["state_prep_error"] = 0.1
     if rng.random() < 0.2:
         kw["amp_sigma"] = 0.05
+    # the other non-Lindbladian channels (must be skipped by _get_all_lindblad_noise_operators)
+    extra = rng.choice([None, None, None, "doppler", "detuning", "register", "dmm_sigma", "dmm_crosstalk"])
+    if extra == "doppler":
+        kw["temperature"] = 50.0
+    elif extra == "detuning":
+        kw["detuning_sigma"] = 0.1
+    elif extra == "register":
+        kw.update(temperature=50.0, trap_waist=1.0, trap_depth=150.0)
+    elif extra == "dmm_sigma":
+        kw["dmm_sigma"] = 0.1
+    elif extra == "dmm_crosstalk":
+        kw["detuning_map_spot_waist"] = 3.0
     n_eff = rng.choice([0, 1, 1, 2, 3]) if dim == 2 else rng.choice([1, 1, 2, 3])
     if n_eff:
         kw["eff_noise_rates"] = [_rate(rng) for _ in range(n_eff)]
